@@ -310,6 +310,9 @@ func extYAMLUnmarshal(fr *frame, args []value) value {
 		}
 		i.path.inputs = append(i.path.inputs, InputRec{Kind: "yamlvalid", Label: "yaml.Unmarshal accepts", Terms: append([]*Term{b}, ts...)})
 	}
+	if v, ok := i.path.extra["yamlassume"]; ok {
+		i.assume(norm(types.Typ[types.Bool], i.tb.Eq(b, i.tb.Bool(v.(bool)))))
+	}
 	if i.decide(b) {
 		return nilErr()
 	}
